@@ -79,6 +79,35 @@ def _linear(idx, cache):
     return None
 
 
+_BASES = {}
+_GROUND = {}
+_KEEP = []
+
+
+def bases_of(arr):
+    k = arr.get_id()
+    r = _BASES.get(k)
+    if r is None:
+        out = set()
+        _bases(arr, out)
+        r = frozenset(out)
+        _BASES[k] = r
+        _KEEP.append(arr)
+    return r
+
+
+def ground_indices(e):
+    """memoized: {(base array id, index id): index term} for all ground selects in e"""
+    k = e.get_id()
+    r = _GROUND.get(k)
+    if r is None:
+        r = {}
+        _scan(e, r, [], {}, set(), False)
+        _GROUND[k] = r
+        _KEEP.append(e)
+    return r
+
+
 def _bases(arr, out):
     """Base array symbols of an array expression (Store chains stripped, both arms of ite)."""
     while z3.is_store(arr):
@@ -105,8 +134,7 @@ def _scan(e, ground_idx, patterns, cache, seen, under_quant):
         return  # nested quantifiers are left alone
     if z3.is_select(e):
         idx = e.arg(1)
-        bs = set()
-        _bases(e.arg(0), bs)
+        bs = bases_of(e.arg(0))
         if _contains_var(idx, cache):
             lin = _linear(idx, cache)
             if lin is not None and lin[0] in (1, -1):
@@ -209,9 +237,8 @@ def ground_query(hyps, goal_item, inst):
     frontier = ground + [neg_goal]
     for rnd in range(ROUNDS):
         gidx = {}
-        seen = set()
         for e in frontier:
-            _scan(e, gidx, [], cache, seen, False)
+            gidx.update(ground_indices(e))
         new = []
         for q, pats in qinfo:
             if rnd > 0 and not small[q.get_id()]:
